@@ -130,19 +130,19 @@ type ResourceMD struct {
 
 // Report is the result of Check.
 type Report struct {
-	Findings []Finding
-	Fired    map[string]int
-	Parts    []PartInfo
-	Stage    string
-	SMMajor  int
-	SMMinor  int
+	Findings             []Finding
+	Fired                map[string]int
+	Parts                []PartInfo
+	Stage                string
+	SMMajor              int
+	SMMinor              int
 	DxilMajor, DxilMinor int
-	Bitcode     *BitcodeSummary
-	Signature   Signatures
-	PSV         PSVInfo
-	Resources   []ResourceMD
-	FeatureInfo uint64
-	EntryName   string
+	Bitcode              *BitcodeSummary
+	Signature            Signatures
+	PSV                  PSVInfo
+	Resources            []ResourceMD
+	FeatureInfo          uint64
+	EntryName            string
 	// Unsupported lists constructs the checker met but does not model; no
 	// finding is raised for them (soundness first).
 	Unsupported []string
@@ -185,7 +185,7 @@ var allRules = []string{
 	"module.function-count",
 	"func.declareblocks", "func.record", "func.operand", "func.type-ref", "func.block-ref",
 	"func.terminators", "func.type-check", "func.ssa", "func.enum", "func.vst", "func.md-attachment",
-	"dxmeta.named", "dxmeta.shader-model", "dxmeta.entry", "dxmeta.resources", "dxmeta.numthreads", "dxmeta.signature",
+	"dxmeta.named", "dxmeta.shader-model", "dxmeta.entry", "dxmeta.resources", "dxmeta.resource-overlap", "dxmeta.numthreads", "dxmeta.signature",
 	"sig.header", "sig.element", "sig.name", "sig.mask", "sig.duplicate",
 	"psv.info-size", "psv.layout", "psv.stage", "psv.resources", "psv.string-table",
 	"psv.sig-elements", "psv.sig-count", "psv.numthreads",
